@@ -146,6 +146,7 @@ func (w *world) call(e *endpoint, op string, f func() string) bool {
 	kcp.VerifSetClock(w.now)
 	var obs string
 	lost0, fast0 := snmpLost(), snmpFast()
+	nxt0 := kcp.VerifKCPState(e.k).SndNxt
 	if msg := hx.Try(func() { obs = f() }); msg != "" {
 		e.dead = true
 		w.aborted = true
@@ -158,6 +159,12 @@ func (w *world) call(e *endpoint, op string, f func() string) bool {
 	w.emit(e, op, obs+" | "+scalars(&d))
 	w.checkInvariants(e, &d, op)
 	w.admissionOracle(e, &d, op, snmpLost()-lost0, snmpFast()-fast0)
+	// C04 admission rule: a new sequence number is only assigned while fewer than
+	// min(snd_wnd, rmt_wnd) are outstanding (the values in force at the flush that admitted it are
+	// the ones the operation leaves behind: Input updates them before it flushes)
+	if d.SndNxt != nxt0 && !strings.HasPrefix(op, "shift") && d.SndNxt-d.SndUna > min(d.SndWnd, d.RmtWnd) {
+		w.viol("admitted-over-window", fmt.Sprintf("%s after %s: %d outstanding after admitting new segments, snd_wnd %d, peer window %d", e.name, op, d.SndNxt-d.SndUna, d.SndWnd, d.RmtWnd))
+	}
 	w.route(e)
 	return true
 }
